@@ -124,6 +124,33 @@ def install(seed, max_steps=3000000, max_virtual=3000.0):
     TM.MANAGER = None
     TM.LOCK = None
     TM.POSITION_REGISTER = None
+
+    # class attributes are per OS process: what a (simulated) worker PROCESS stores in its copy of TqdmManager must not show
+    # up in the main process.  Worker THREADS (start_method='threading') really share the class: left as it is.
+    orig_set_details = TM.__dict__['set_connection_details']
+
+    def set_connection_details(cls, details):
+        cur = sim.S.cur
+        if cur is not None and cur.proc is not None and cur.proc is not sim.S.mainproc:
+            return
+        return orig_set_details.__func__(cls, details)
+
+    _saved.append((TM, 'set_connection_details', orig_set_details))
+    TM.set_connection_details = classmethod(set_connection_details)
+    # tqdm's class-level write lock is process-global state as well: restored when the run is torn down
+    for _style in (None,):
+        try:
+            _cl = mpire.tqdm_utils.get_tqdm(_style)
+            _saved.append((_cl, '_lock', _cl.__dict__.get('_lock', _MISSING)))
+        except Exception:
+            pass
+    # no real monitor thread of tqdm may touch simulated locks
+    try:
+        import tqdm as _tq
+        _saved.append((_tq.tqdm, 'monitor_interval', _tq.tqdm.monitor_interval))
+        _tq.tqdm.monitor_interval = 0
+    except Exception:
+        pass
     # tqdm's own clock (mininterval decisions) follows virtual time so that the printed sequence is deterministic
     import tqdm.std
     _set(tqdm.std, 'time', sim.time_shim.time)
@@ -225,6 +252,13 @@ def tag_comms(c):
 
 
 def uninstall():
+    try:
+        import mpire.tqdm_utils as _tu
+        _tu.TqdmManager.MANAGER = None
+        _tu.TqdmManager.LOCK = None
+        _tu.TqdmManager.POSITION_REGISTER = None
+    except Exception:
+        pass
     while _saved:
         tgt, name, old = _saved.pop()
         if isinstance(tgt, tuple) and tgt[0] == 'dict':
